@@ -155,12 +155,6 @@ func judgeC07(c *C07Case, cx *Ctx) (v *Violation) {
 	if c.Op == "badPrecision" {
 		return judgeBadPrecision(c, cx)
 	}
-	if (c.Op == "minkSum" || c.Op == "minkDiff") && (len(c.Clip) == 0 || len(c.Clip[0]) == 0) && !c.Closed {
-		// the 64-bit counterpart panics on an empty open path (C03's finding F17); there is
-		// nothing to compare the float wrapper with
-		cx.St.Eval(c, false, "op:"+c.Op, "skipped:counterpart-panics(F17)")
-		return nil
-	}
 	p := c.prec()
 	scale := math.Pow(10, float64(p))
 	pa := precArgs(c)
